@@ -149,3 +149,20 @@ Proof. intros [H1 H2]. unfold dlen in *. lia. Qed.
 
 Lemma init_cursor_ok toks : cursor_ok {| d_tokens := toks; d_cursor := -1; d_nesting := 0 |}.
 Proof. unfold cursor_ok, dlen; cbn. lia. Qed.
+
+(* ---- parseUpstream: the port text u[len(us)+1 : portsEnd] ----
+   us = u[:colon] with colon = LastIndex(u, ":"); portsEnd = colon + k with k = Index(u[colon:], "/"), or len(u)
+   when there is none.  u[colon] is ':' and not '/', so a slash found in u[colon:] has k >= 1. *)
+Lemma upstream_port_cut_in_bounds (len colon k : Z) :
+  0 <= colon < len -> (k = -1 \/ (1 <= k /\ colon + k + 1 <= len)) ->
+  let portsEnd := if k =? -1 then len else colon + k in
+  0 <= colon + 1 /\ colon + 1 <= portsEnd /\ portsEnd <= len.
+Proof. intros H [->|[K1 K2]]; simpl; [lia|]. destruct (Z.eqb_spec k (-1)); lia. Qed.
+
+(* the end searched from the host instead (a seeded variant): the first '/' after the host may come BEFORE the
+   last ':' - "localhost/a:b": len 13, last colon at 11, first slash at 9 *)
+Lemma upstream_port_cut_from_host_refuted :
+  exists len colon hostStart k : Z,
+    0 <= hostStart /\ hostStart <= colon /\ colon < len /\ 0 <= k /\ hostStart + k + 1 <= len /\
+    ~ (colon + 1 <= hostStart + k).
+Proof. exists 13, 11, 0, 9. lia. Qed.
